@@ -25,6 +25,12 @@ const (
 	c06totalLenOverrun
 	c06prefixLen
 	c06confedSegment
+	c06communitiesLength
+	c06nexthopLength
+	c06aspathOverrun
+	c06withdrawnLenOverrun
+	c06missingAsPath
+	c06missingOrigin
 	c06nFaults
 )
 
@@ -33,7 +39,8 @@ func c06class(f int, ebgp bool) ErrorHandling {
 	switch f {
 	case c06none:
 		return ERROR_HANDLING_NONE
-	case c06originValue, c06originLength, c06originFlags, c06nexthopValue, c06aspathSegType, c06medLength, c06missingNexthop:
+	case c06originValue, c06originLength, c06originFlags, c06nexthopValue, c06aspathSegType, c06medLength, c06missingNexthop,
+		c06communitiesLength, c06nexthopLength, c06aspathOverrun, c06missingAsPath, c06missingOrigin:
 		return ERROR_HANDLING_TREAT_AS_WITHDRAW
 	case c06dupMed, c06aggregatorLength, c06atomicWithValue:
 		return ERROR_HANDLING_ATTRIBUTE_DISCARD
@@ -51,6 +58,7 @@ type c06msg struct {
 	attrs [][]byte // one byte string per attribute
 	nlri  []byte
 	extra int // added to the total attribute length field
+	wextra int // added to the withdrawn routes length field
 }
 
 func c06build() *c06msg {
@@ -115,6 +123,31 @@ func (m *c06msg) inject(f int) {
 		m.nlri[0] = l
 	case c06confedSegment:
 		m.attrs[1][3] = BGP_ASPATH_ATTR_TYPE_CONFED_SEQ
+	case c06communitiesLength:
+		n := 1 + int(vU8("community_extra_bytes")%3) // length 4k+1..4k+3
+		a := []byte{0xc0, 8, byte(4 + n), 0xfd, 0xe8, 0, 1}
+		for i := 0; i < n; i++ {
+			a = append(a, vU8("community_byte"))
+		}
+		m.attrs = append(m.attrs, a)
+	case c06nexthopLength:
+		if vBool("next_hop_too_long") {
+			m.attrs[2] = append(m.attrs[2], vU8("next_hop_extra"))
+			m.attrs[2][2] = 5
+		} else {
+			m.attrs[2] = m.attrs[2][:6]
+			m.attrs[2][2] = 3
+		}
+	case c06aspathOverrun:
+		c := vU8("segment_count")
+		vAssume(c > 1) // the segment announces more members than the attribute holds
+		m.attrs[1][4] = c
+	case c06withdrawnLenOverrun:
+		m.wextra = 1 + int(vU8("withdrawn_overrun"))
+	case c06missingAsPath:
+		m.attrs = append(m.attrs[:1:1], m.attrs[2:]...)
+	case c06missingOrigin:
+		m.attrs = m.attrs[1:]
 	}
 }
 
@@ -124,7 +157,7 @@ func (m *c06msg) bytes() []byte {
 		as = append(as, a...)
 	}
 	tl := len(as) + m.extra
-	out := []byte{0, 0, byte(tl >> 8), byte(tl)}
+	out := []byte{byte(m.wextra >> 8), byte(m.wextra), byte(tl >> 8), byte(tl)}
 	out = append(out, as...)
 	return append(out, m.nlri...)
 }
@@ -146,15 +179,15 @@ func c06compatible(f1, f2 int) bool {
 	// two faults on the same bytes would overwrite each other; such pairs are not combined
 	site := func(f int) int {
 		switch f {
-		case c06originValue, c06originLength, c06originFlags:
+		case c06originValue, c06originLength, c06originFlags, c06missingOrigin:
 			return 1
-		case c06nexthopValue, c06missingNexthop:
+		case c06nexthopValue, c06missingNexthop, c06nexthopLength:
 			return 2
-		case c06aspathSegType, c06confedSegment:
+		case c06aspathSegType, c06confedSegment, c06aspathOverrun, c06missingAsPath:
 			return 3
 		case c06medLength, c06dupMed:
 			return 4
-		case c06totalLenOverrun, c06prefixLen:
+		case c06totalLenOverrun, c06prefixLen, c06withdrawnLenOverrun:
 			return 5
 		}
 		return 10 + f
